@@ -98,7 +98,11 @@ func (mod *Module) findIdentityBase(baseStr string) (*resolvedIdentity, []error)
 	case "", rootPrefix:
 		// This is a local identity which is defined within the current
 		// module
-		keyName := fmt.Sprintf("%s:%s", module(mod).Name, baseName)
+		owner := module(mod)
+		if owner == nil {
+			owner = mod
+		}
+		keyName := fmt.Sprintf("%s:%s", owner.Name, baseName)
 		base, ok = typeDict.identities.dict[keyName]
 		if !ok {
 			errs = append(errs, fmt.Errorf("%s: can't resolve the local base %s as %s", source, baseStr, keyName))
@@ -112,7 +116,11 @@ func (mod *Module) findIdentityBase(baseStr string) (*resolvedIdentity, []error)
 			break
 		}
 		// The identity we are looking for is modulename:basename.
-		if id, ok := typeDict.identities.dict[fmt.Sprintf("%s:%s", module(extmod).Name, baseName)]; ok {
+		extowner := module(extmod)
+		if extowner == nil {
+			extowner = extmod
+		}
+		if id, ok := typeDict.identities.dict[fmt.Sprintf("%s:%s", extowner.Name, baseName)]; ok {
 			base = id
 			break
 		}
